@@ -191,7 +191,7 @@ func checkRef(c CaseGraph, r *gkit.Runner) (*vkit.Failure, vkit.Meta, *gkit.RefR
 		if want == "" && gkit.Canon(out) != gkit.Canon(ref.Out) {
 			return &vkit.Failure{Kind: "output-mismatch", Sig: "output-mismatch", Msg: fmt.Sprintf("output %q, reference model says %q", vkit.Short(gkit.Canon(out), 300), vkit.Short(gkit.Canon(ref.Out), 300))}
 		}
-		{
+		if !ref.ExecsUncertain {
 			if d := gkit.DiffExecs(env.Execs(), ref.Execs, ref.Optional...); d != "" {
 				return &vkit.Failure{Kind: "executions-mismatch", Sig: "executions-mismatch", Msg: d}
 			}
